@@ -313,8 +313,8 @@ def _ng_gen(rng):
 NG = Unit(['C13', 'C20'], SM + 'nativeWavenumberGrid', _ng_params, raises=_ng_raises, post=_ng_post, native=_ng_native, gen=_ng_gen,
           cases=[{'G': k} for k in (0, 1, 2, 3)], bounds=[dict(len0=2, len1=3, len2=3)],
           pre=lambda c, v: {'lens': c.And(*[c.Len(o.wavenumberGrid) >= 0 for o in v.self.g_cache.values()])} if c.mode != 'conc' else {},
-          abstract={'new:OpacityCache': lambda ex, st, args, kwargs, node: st.get(st.env['self']).attrs['g_cache'],
-                    'new:KTableCache': lambda ex, st, args, kwargs, node: st.get(st.env['self']).attrs['g_cache'],
+          abstract={'new:OpacityCache': lambda ex, st, args, kwargs, node: st.get(ex.root_env['self']).attrs['g_cache'],
+                    'new:KTableCache': lambda ex, st, args, kwargs, node: st.get(ex.root_env['self']).attrs['g_cache'],
                     'new:GlobalCache': lambda ex, st, args, kwargs, node: st.alloc(ex.c, PyDict({'opacity_method': 'xsec'}))},
           inline=['chemistry'], short='SimpleForwardModel.nativeWavenumberGrid',
           doc='choice of the model\'s native grid among the active molecules (0..3 molecules, any grid lengths); no active '
